@@ -78,6 +78,7 @@ def design_desc(draw):
         subs.append({"name": names[draw(INT(0, 3))], "w": draw(INT(1, 4)), "src": PICK(draw, targets),
                      "dom": PICK(draw, doms), "anon": draw(BOOL), "inst": draw(BOOL), "mem": draw(INT(0, 2)) == 0})
     for sub in subs:
+        sub["rawmem"] = draw(INT(0, 2)) == 0
         if draw(INT(0, 2)) == 0:
             kd, dom = "kd", sub["dom"]
             mp = PICK(draw, [[[kd, "kx"]], [[kd, dom]], [[kd, dom], [dom, kd]], [[kd, dom], [dom, "kx"]], [[dom, kd]]])
@@ -139,6 +140,7 @@ def rtlil_body(ctx, batch):
         if any(s["anon"] for s in desc["subs"]): keys.append("rtlil:anonymous-submodule")
         if any(s["inst"] for s in desc["subs"]): keys.append("rtlil:instance-with-clocksignal")
         if any(s["mem"] for s in desc["subs"]): keys.append("rtlil:memory")
+        if any(s.get("rawmem") for s in desc["subs"]): keys.append("rtlil:kept-memory-primitive")
         if any(s.get("keeper") for s in desc["subs"]): keys.append("rtlil:renamer-around-kept-clock-domain")
         if any(s.get("keeper") and renamer_revisits(s["keeper"]["map"]) for s in desc["subs"]):
             keys.append("rtlil:renamer-map-revisits-a-name")
@@ -300,5 +302,5 @@ def parts(tier):
 
 REQUIRED = ["rtlil:design", "rtlil:>=2-implicit-domains", "rtlil:name-clash", "rtlil:anonymous-submodule",
             "rtlil:instance-with-clocksignal", "rtlil:memory", "rtlil:renamer-around-kept-clock-domain",
-            "rtlil:renamer-map-revisits-a-name", "sim:history", "sim:partial-run-before-reset",
+            "rtlil:renamer-map-revisits-a-name", "rtlil:kept-memory-primitive", "sim:history", "sim:partial-run-before-reset",
             "sim:with-processes", "sim:memory-written", "plan:icestorm", "plan:trellis", "plan:apicula"]
